@@ -243,7 +243,7 @@ def c13_3(ctx: Ctx) -> RuleResult:
         res.exhaustive = True
         return res
     g = guards[0]
-    t = X.at(f, g.test)
+    t = X.value_at(f, g.test)
     bad = []
     undecided = False
     for lo, up in itertools.product(("all", "mixed", "none"), repeat=2):
